@@ -119,6 +119,16 @@ where
             .parse_layers::<E, H, V>(lde_domain_size, fri_options.folding_factor())
             .map_err(|err| VerifierError::ProofDeserializationError(err.to_string()))?;
 
+        // the FRI verifier consumes exactly one layer per folding step implied by the options
+        let num_fri_layers = fri_options.num_fri_layers(lde_domain_size);
+        if fri_layer_proofs.len() != num_fri_layers {
+            return Err(VerifierError::ProofDeserializationError(format!(
+                "expected {} FRI layers, but received {}",
+                num_fri_layers,
+                fri_layer_proofs.len()
+            )));
+        }
+
         // --- parse out-of-domain evaluation frame -----------------------------------------------
         let (ood_trace_frame, ood_constraint_evaluations) = ood_frame
             .parse(main_trace_width, aux_trace_width, constraint_frame_width)
